@@ -143,7 +143,8 @@ def count_obligations(pid):
     # files that instantiate generic lemmas on the regenerated tables (they hold the data obligations)
     for rel, tag in ((f"theories/Props/{pid}.v", None), ("theories/Proofs/GenObligations.v", "GenObligations"),
                      ("theories/Proofs/GenerateFacts.v", "GenerateFacts"), ("theories/Proofs/RandomGen.v", "RandomGen"),
-                     ("theories/Proofs/GenerateTotal.v", "GenerateTotal"), ("theories/Proofs/RandomTotal.v", "RandomTotal")):
+                     ("theories/Proofs/GenerateTotal.v", "GenerateTotal"), ("theories/Proofs/RandomTotal.v", "RandomTotal"),
+                     ("theories/Proofs/NationalTotal.v", "NationalTotal")):
         p = os.path.join(COQ, rel)
         if not os.path.exists(p):
             continue
